@@ -191,6 +191,11 @@ def gen_set(rng):
             other = idb[:-1] + bytes([idb[-1] ^ 0x55])
             ln = rng.choice([None, 2, 4])
             ids = '%s%s;%s%s' % (idb.hex(), ':%d' % ln if ln else '', other.hex(), ':%d' % ln if ln else '')
+            if rng.random() < 0.4:
+                # three parts with independent explicit lengths (incl. the loader's default 16 after another length)
+                third = idb[:-1] + bytes([idb[-1] ^ 0x2a])
+                lens3 = [rng.choice([2, 4, 9, 16]) for _ in range(3)]
+                ids = ';'.join('%s:%d' % (i.hex(), l) for i, l in zip((idb, other, third), lens3))
             chain = True
         key = (typ[0] + ('w' if typ.endswith('w') and typ[0] == 'u' else ''), zz, pbsb, ids, qq)
         if key in used:
